@@ -286,6 +286,11 @@ pub fn gen_case(r: &mut Rng, out: &mut String, with_queries: bool) {
     let nkeys = r.range(1, 6) as usize;
     let nops = r.range(5, 40);
     writeln!(out, "new b0").unwrap();
+    if r.chance(1, 10) {
+        // dozens of tiny chunks around the ones the history works on
+        writeln!(out, "extend b0{}", many_chunk_values(r)).unwrap();
+        writeln!(out, "dump b0").unwrap();
+    }
     for _ in 0..nops {
         mutator(r, out, nkeys);
         writeln!(out, "dump b0").unwrap();
